@@ -234,7 +234,7 @@ def _run_limited(binary, env_extra, cwd):
     env.update({k: str(v) for k, v in env_extra.items()})
     lim = _AS_GB << 30
     p = subprocess.run([binary, "-test.run", "^TestHarness$", "-test.timeout", "0"], env=env, cwd=cwd, stdout=subprocess.DEVNULL, stderr=subprocess.PIPE, text=True, timeout=3600,
-                       preexec_fn=lambda: resource.setrlimit(resource.RLIMIT_AS, (lim, lim)))
+                       preexec_fn=lambda: (c.die_with_parent(), resource.setrlimit(resource.RLIMIT_AS, (lim, lim))))
     p.stdout = ""
     return p
 
